@@ -48,7 +48,13 @@ pub fn max_peers_fitting_response_buffer(config: &Config) -> usize {
     // digits, two string length prefixes and final newline
     const OVERHEAD: usize = 256;
 
-    let peer_len = if config.network.use_ipv6 { 18 } else { 6 };
+    // Behind a reverse proxy, peer addresses come from a request header and
+    // can be IPv6 whatever the listening sockets are
+    let peer_len = if config.network.use_ipv6 || config.network.runs_behind_reverse_proxy {
+        18
+    } else {
+        6
+    };
 
     (RESPONSE_BUFFER_SIZE - OVERHEAD) / peer_len
 }
